@@ -140,6 +140,8 @@ pub fn kind_of(any: AnyGc<'_>) -> Kind {
     match canon(any) {
         AnyGc::Node(_) => Kind::Node,
         AnyGc::Bag(_) => Kind::Bag,
+        AnyGc::CopySlice(g) => Kind::CopySlice { len: g.len() as u8 },
+        AnyGc::CopySwh(g) => Kind::CopySwh { len: g.slice.len() as u8 },
         AnyGc::Field(_) => Kind::Field,
         AnyGc::Raw(_) => Kind::Raw,
         AnyGc::Cell(_) => Kind::Cell,
@@ -161,6 +163,7 @@ pub fn stored_id(any: AnyGc<'_>) -> Option<Id> {
     match canon(any) {
         AnyGc::Node(g) => Some(g.borrow().id),
         AnyGc::Bag(g) => Some(g.borrow().id),
+        AnyGc::CopySwh(g) => Some(g.header.id),
         AnyGc::Field(g) => Some(g.id),
         AnyGc::Raw(g) => Some(g.id),
         AnyGc::Cell(g) => Some(g.get().0),
@@ -293,7 +296,7 @@ pub fn alloc<'gc>(mc: &Mutation<'gc>, kind: Kind, id: Id) -> AnyGc<'gc> {
             let _t = seam::track();
             AnyGc::Bag(Gc::new(mc, v))
         }
-        Kind::SetInner | Kind::Lay { .. } | Kind::Built { .. } | Kind::ZstShared => unreachable!("not allocated through access::alloc"),
+        Kind::SetInner | Kind::Lay { .. } | Kind::Built { .. } | Kind::ZstShared | Kind::CopySlice { .. } | Kind::CopySwh { .. } => unreachable!("not allocated through access::alloc"),
     }
 }
 
@@ -308,6 +311,14 @@ pub fn read_strong<'gc>(any: AnyGc<'gc>, k: usize) -> Edge<'gc> {
             }
         }
         AnyGc::Opaque(_) => None,
+        AnyGc::CopySlice(g) => g[k],
+        AnyGc::CopySwh(g) => {
+            if k == 0 {
+                g.header.e
+            } else {
+                g.slice[k - 1]
+            }
+        }
         AnyGc::ThinSlice(_) | AnyGc::ThinSwh(_) | AnyGc::NodeE(_) | AnyGc::NodeD(_) | AnyGc::NodeM(_) => unreachable!(),
         AnyGc::Node(g) => g.borrow().strong[k],
         AnyGc::Bag(g) => {
@@ -386,6 +397,21 @@ pub enum Wrote {
     Refused,
 }
 
+/// An immutable edge-carrying object made through the copy path.
+pub fn alloc_copy<'gc>(mc: &Mutation<'gc>, id: Id, edges: &[Edge<'gc>], header: bool) -> AnyGc<'gc> {
+    if header {
+        let h = {
+            let _p = seam::pause();
+            CopyHead { id, tok: Tok(id), e: edges.first().copied().flatten() }
+        };
+        let _t = seam::track();
+        AnyGc::CopySwh(GcSliceWithHeaderBuilder::<CopyHead<'gc>, Edge<'gc>>::new(edges.len().saturating_sub(1)).write_header(h).copy_slice(mc, if edges.is_empty() { edges } else { &edges[1..] }))
+    } else {
+        let _t = seam::track();
+        AnyGc::CopySlice(Gc::new_slice(mc, edges))
+    }
+}
+
 /// Store `v` into strong slot `k` of `any` through a sanctioned route.
 pub fn write_strong<'gc>(mc: &Mutation<'gc>, any: AnyGc<'gc>, self_id: Id, k: usize, route: Route, v: Edge<'gc>) -> Wrote {
     match canon(any) {
@@ -418,7 +444,7 @@ pub fn write_strong<'gc>(mc: &Mutation<'gc>, any: AnyGc<'gc>, self_id: Id, k: us
             }
             Wrote::Done
         }
-        AnyGc::Opaque(_) => Wrote::Refused,
+        AnyGc::Opaque(_) | AnyGc::CopySlice(_) | AnyGc::CopySwh(_) => Wrote::Refused,
         AnyGc::ThinSlice(_) | AnyGc::ThinSwh(_) | AnyGc::NodeE(_) | AnyGc::NodeD(_) | AnyGc::NodeM(_) => unreachable!(),
         AnyGc::Node(g) => {
             match route {
